@@ -68,6 +68,11 @@ func (w *Waiter) Next() GenericDataType {
 		data, ok := w.Diode.TryNext()
 		if !ok {
 			if w.isDone() {
+				// Data set before the context was cancelled may have
+				// arrived after the TryNext above: look once more.
+				if data, ok = w.Diode.TryNext(); ok {
+					return data
+				}
 				return nil
 			}
 
